@@ -2,5 +2,5 @@
 EXTENDS CloudKey, Json
 Export ==
   pc = "done" =>
-    PrintT("BEH " \o ToJson([cfg |-> cfg, req |-> req, faults |-> faults, calls |-> calls, result |-> result]))
+    PrintT("BEH " \o ToJson([cfg |-> cfg, reqs |-> done, req |-> req, faults |-> faults, calls |-> calls, result |-> result]))
 =============================================================================
